@@ -26,7 +26,8 @@ lookup at the canonical index) and `PyFunction` (ev = the callable).  The querie
 -- OBLIGATION: c12_truth_table_equal_to_input
 -- OBLIGATION: c12_define
 -- OBLIGATION: c12_int_wrappers_bit_order
--- PARTIAL: every clause is proved on the model. find_negations_to_make_symmetric: that the returned vector is the first in enumeration order is by correspondence (the theorem says it works, and that None means none works). canonical_index_to_input with size 0 returns all digits (Python's `[-0:]`), outside the wrappers' use (out_len >= 1 in the theorem). The tie between the model and the three Python representations is by correspondence (exhaustive for small shapes).
+-- OBLIGATION: c12_find_negations_first
+-- PARTIAL: every clause is proved on the model (incl. that find_negations_to_make_symmetric returns the first working vector of the itertools.product enumeration). canonical_index_to_input with size 0 returns all digits (Python's `[-0:]`), outside the wrappers' use (out_len >= 1 in the theorem). The tie between the model and the three Python representations is by correspondence (exhaustive for small shapes).
 -/
 namespace Cirbo
 open FRep
@@ -175,6 +176,18 @@ theorem c12_int_wrappers_bit_order (inLen outLen : Nat) (be : Bool) (args : List
           (FRep.canonicalIndex (if be then args.drop inLen else (args.drop inLen).reverse)) % 2 ^ outLen) :=
   ⟨fun f => FRep.fromIntUnary_spec f inLen outLen be args ho, fun f => FRep.fromIntBinary_spec f inLen outLen be args ho⟩
 
+/-- the vector returned by `find_negations_to_make_symmetric` is the first one, in the enumeration
+order of `itertools.product((False, True), repeat=n)`, that makes the selected outputs symmetric -/
+theorem c12_find_negations_first (F : FRep) (outs : List Nat) (neg : List Bool)
+    (h : F.findNegations outs = some neg) :
+    ∃ before after, allInputs F.n = before ++ neg :: after ∧
+      F.symOn neg (fun v => outs.map (fun o => v.getD o false)) = true ∧
+      ∀ x ∈ before, F.symOn x (fun v => outs.map (fun o => v.getD o false)) = false := by
+  unfold FRep.findNegations at h
+  obtain ⟨h1, as, bs, h2, h3⟩ := List.find?_eq_some_iff_append.mp h
+  exact ⟨as, bs, h2, h1, fun x hx => by simpa using h3 x hx⟩
+
+#print axioms c12_find_negations_first
 #print axioms c12_int_wrappers_bit_order
 #print axioms c12_define
 
